@@ -16,6 +16,7 @@ CONSTANTS
   MaxTops = 1
   AliasAlpha <- AliasForms
   MaxAliases = 1
+  NestedLike = FALSE
   CmdKinds <- None
 INVARIANT SafeVis
 INVARIANT SafeAccess
